@@ -87,7 +87,7 @@ def main():
                     res["patches"].append({"patch": name, "applies": False, "why": out[-300:]})
                     continue
                 sh(f"git apply {pt}", cwd=wt)
-                files = sh("git diff --name-only", cwd=wt)[1].split()
+                files = sh("git diff --name-only", cwd=wt)[1].split() or sh("git ls-files --others --exclude-standard", cwd=wt)[1].split()
                 entry = {"patch": name, "applies": True, "files": files, "demos": {}}
                 for dm in demos:
                     rc, out = run_demo(pid, wt, dm, demo_dir(pid, dm))
@@ -102,7 +102,7 @@ def main():
                 entry["check_failed_obligations"] = sorted(set(re.findall(r'^FAILED (\S+)', out, re.M)))[:12]
                 entry["check_unverifiable"] = re.findall(r'^UNVERIFIABLE: (.*)', out, re.M)[:4]
                 res["patches"].append(entry)
-                sh("git checkout -- .", cwd=wt)
+                sh("git checkout -- . && git clean -fdq", cwd=wt)
         finally:
             sh(f"git -C /repo worktree remove --force {wt}")
             shutil.rmtree(wt + "-stage", ignore_errors=True)
